@@ -1339,8 +1339,20 @@ class BinaryOperator(SymbolicExpression, ABC):
     def __post_init__(self):
         super().__post_init__()
         self.left, self.right = self._update_children_(self.left, self.right)
-        combined_vars = self.left._unique_variables_.union(self.right._unique_variables_)
-        self._cache_.keys = [v.id_ for v in combined_vars.filter(lambda v: not isinstance(v.value, Literal))]
+        self._cache_.keys = self._ids_of_values_that_identify_a_result_(self.left, self.right)
+
+    @staticmethod
+    def _ids_of_values_that_identify_a_result_(*expressions: SymbolicExpression) -> List[int]:
+        """
+        :return: The ids under which the bindings that distinguish one result of the given expressions from another
+         are found: their (non-literal) variables, and their flatten nodes, which yield several values for one
+         binding of their variables.
+        """
+        ids = []
+        for expression in expressions:
+            ids.extend(v.id_ for v in expression._unique_variables_ if not isinstance(v.value, Literal))
+            ids.extend(node._id_ for node in expression._all_nodes_ if isinstance(node, Flatten))
+        return list(dict.fromkeys(ids))
 
     def yield_final_output_from_cache(self, variables_sources, cache: Optional[IndexedCache] = None) \
             -> Iterable[Dict[int, HashedValue]]:
@@ -1601,8 +1613,7 @@ class LogicalOperator(BinaryOperator, ABC):
 
     def __post_init__(self):
         super().__post_init__()
-        right_vars = self.right._unique_variables_.filter(lambda v: not isinstance(v, Literal))
-        self.right_cache.keys = [v.id_ for v in right_vars]
+        self.right_cache.keys = self._ids_of_values_that_identify_a_result_(self.right)
 
     def _clear_only_my_result_caches_(self) -> None:
         super()._clear_only_my_result_caches_()
